@@ -1032,9 +1032,10 @@ class ParseValueInterp(FxInterp):
     `(a, b).map(|(x, y)| f(x, y)).parse_next(input)` and `let x = a.parse_next(input)?; let y = b.parse_next(input)?; Ok(f(x, y))`
     both become f(outputs[0], outputs[1]).  Nothing is parsed: every `parse_next` is a hole filled from the list."""
 
-    def __init__(self, ev, outputs):
+    def __init__(self, ev, outputs, choices=()):
         super().__init__(ev)
         self.queue = list(outputs)
+        self.choices = list(choices)     # which alternative each `alt((..))` met in parse order takes
 
     def output_of(self, pe, env):
         pe = peel(pe)
@@ -1051,6 +1052,14 @@ class ParseValueInterp(FxInterp):
             return self.val(pe['args'][0], env)
         if k == 'call' and (peel(pe.get('f', {})).get('path') or '').endswith('combinator::debug::trace') and len(pe.get('args', [])) == 2:
             return self.output_of(pe['args'][1], env)
+        if k == 'call' and last_seg(peel(pe.get('f', {})).get('path') or '') in ('cut_err', 'backtrack_err') and len(pe.get('args', [])) == 1:
+            return self.output_of(pe['args'][0], env)
+        if k == 'call' and last_seg(peel(pe.get('f', {})).get('path') or '') == 'alt' and len(pe.get('args', [])) == 1 and peel(pe['args'][0]).get('k') == 'tup':
+            if self.choices:
+                return self.output_of(peel(pe['args'][0])['elems'][self.choices.pop(0)], env)
+            # no choice supplied: the alternation as a whole is one atomic sub-parser
+        if k == 'mcall' and pe.get('name') in ('verify', 'void', 'span', 'with_span', 'take') and pe.get('name') == 'verify':
+            return self.output_of(pe['recv'], env)
         if not self.queue:
             raise Unanalysable('more sub-parsers than supplied outputs')
         return self.queue.pop(0)
